@@ -3,8 +3,17 @@
 import json
 import sys
 
-sys.path.insert(0, '/verif/py')
-import manifest_entries as M  # noqa: E402
+import glob
+import os
+
+
+class M:
+    NOTES = ('Every check = (1) regenerate coq/Gen from /repo with the fail-closed translator, (2) rebuild the property\'s '
+             'Coq files and re-check Print Assumptions of every theorem in coq/Properties/<id>.v, (3) run the real '
+             'implementation and the Gallina model on the same generated cases and compare inside Coq, (4) execute the '
+             'property statement (oracle) on the implementation to produce concrete replays. See DESIGN.md.')
+    CLAIMED = {os.path.basename(p)[:-5]: json.load(open(p)) for p in sorted(glob.glob('/verif/manifest.d/C*.json'))}
+    NOT_CLAIMED = json.load(open('/verif/manifest.d/not_claimed.json')) if os.path.exists('/verif/manifest.d/not_claimed.json') else {}
 
 props = [json.loads(l)['id'] for l in open('/verif/properties.jsonl')]
 checks = []
